@@ -1698,8 +1698,11 @@ func oracleNoDuplicateData(o *e2eOutcome, v vfn) {
 					}
 					// (the poll goes by name: the answer can only have been about THIS version
 					// if the receiver held it validated when it answered)
-					if confirmed[p.Name] && deliveredVersionBy(o, p.Name, p.Hash, confirmedAt[p.Name]) {
-
+					// ... and only a transmission that STARTED after the answer was given can
+					// be a re-transmission of what was confirmed (requests are listed in the order
+					// they were opened; a slow poll opened first may be answered long after
+					// the data request that delivered the version it answers for)
+					if confirmed[p.Name] && r.At >= confirmedAt[p.Name] && deliveredVersionBy(o, p.Name, p.Hash, confirmedAt[p.Name]) {
 						v("C07", "confirmed-files-not-resent", "resent-confirmed-file", fmt.Sprintf("sender generation %d transmitted %s%s although the receiver had answered passed/waiting for it after the restart", g, p.Name, fmtIv(p.Beg, p.End)))
 					}
 					for _, h := range held[p.Name+"|"+p.Hash] {
